@@ -42,6 +42,7 @@ var outcomes = []string{
 type Round struct {
 	Out     string `json:"out"`
 	Dur     int64  `json:"dur,omitempty"` // fake ns the task runs
+	DialDur int64  `json:"dial_dur,omitempty"` // fake ns the dial attempt itself takes (it cannot be interrupted)
 	Get     string `json:"get,omitempty"` // sysctl faults of this generation (Advertise mode): permission notexist other
 	Set     string `json:"set,omitempty"`
 	Restore string `json:"restore,omitempty"`
@@ -177,6 +178,9 @@ func execSPlan(t *testing.T, p *SPlan, res *verifsim.Result, after func(ev []ver
 		d.DialFunc = func() (*DialContext, error) {
 			r := next()
 			lg.Add(verifsim.Event{K: "dial.enter", V: int64(round)})
+			if r.DialDur > 0 {
+				time.Sleep(time.Duration(r.DialDur))
+			}
 			if strings.HasPrefix(r.Out, "dial:") {
 				lg.Add(verifsim.Event{K: "dial.exit", Err: r.Out})
 				return nil, outcomeErr(r.Out)
@@ -361,9 +365,12 @@ func c10Gen(rng *verifsim.RNG, idx int, tier string) any {
 		p.Class = "enumerated-cancel"
 		k := idx - n
 		p.Rounds = seqFromIndex(k%pow(len(outcomes), 3), 3)
+		for i := range p.Rounds {
+			p.Rounds[i].DialDur = 40 * nsMs // cancellation can land inside a dial attempt
+		}
 		k /= pow(len(outcomes), 3)
 		pos := k % 3
-		off := []int64{13 * nsMs, 120 * nsMs, 300 * nsMs, 600 * nsMs, 1100 * nsMs, 2600 * nsMs}[k/3]
+		off := []int64{13 * nsMs, 120 * nsMs, 155 * nsMs, 600 * nsMs, 1100 * nsMs, 2600 * nsMs}[k/3]
 		// roughly: position x (task duration + back-off) plus the offset
 		p.CancelAt = int64(pos)*400*nsMs + off
 	default:
@@ -379,13 +386,37 @@ func c10Gen(rng *verifsim.RNG, idx int, tier string) any {
 					o = []string{"dial:linknotready", "dial:syscall", "task:linkchange", "task:syscall"}[rng.Intn(4)]
 				}
 			}
-			p.Rounds = append(p.Rounds, Round{Out: o, Dur: int64(rng.Dur(0, 3*time.Second))})
+			r := Round{Out: o, Dur: int64(rng.Dur(0, 3*time.Second))}
+			if rng.Bool(0.4) {
+				r.DialDur = int64(rng.Dur(time.Millisecond, 800*time.Millisecond))
+			}
+			p.Rounds = append(p.Rounds, r)
 		}
 		if rng.Bool(0.5) {
 			p.CancelAt = int64(rng.Dur(0, 200*time.Second)) + 777
+			if rng.Bool(0.5) {
+				p.CancelAt = int64(rng.Dur(0, 8*time.Second)) + 777
+			}
 		}
 	}
+	avoidCoin(p)
 	return p
+}
+
+// avoidCoin moves a cancellation that would land inside the very first dial
+// attempt when that attempt fails recoverably: init() then enters its recovery
+// loop with a zero first wait and selects between an expired timer and a
+// cancelled context, which the Go runtime decides by coin (DESIGN.md 2.4) and
+// no plan can replay. (The oracle accepts either outcome; this only keeps runs
+// deterministic.)
+func avoidCoin(p *SPlan) {
+	if p.CancelAt < 0 || len(p.Rounds) == 0 {
+		return
+	}
+	r0 := p.Rounds[0]
+	if (r0.Out == "dial:linknotready" || r0.Out == "dial:syscall") && p.CancelAt <= r0.DialDur {
+		p.CancelAt = r0.DialDur + 1000
+	}
 }
 
 var sysctlKinds = []string{"", "permission", "notexist", "other"}
@@ -427,6 +458,9 @@ func c11Gen(rng *verifsim.RNG, idx int, tier string) any {
 	nr := rng.Range(1, 12)
 	for i := 0; i < nr; i++ {
 		r := Round{Out: outcomes[rng.Intn(len(outcomes))], Dur: int64(rng.Dur(0, 2*time.Second))}
+		if rng.Bool(0.5) {
+			r.DialDur = int64(rng.Dur(time.Millisecond, 800*time.Millisecond))
+		}
 		if rng.Bool(0.3) {
 			r.Get = sysctlKinds[rng.Intn(4)]
 		}
@@ -438,9 +472,10 @@ func c11Gen(rng *verifsim.RNG, idx int, tier string) any {
 		}
 		p.Rounds = append(p.Rounds, r)
 	}
-	if rng.Bool(0.5) {
-		p.CancelAt = int64(rng.Dur(0, 30*time.Second)) + 777
+	if rng.Bool(0.6) {
+		p.CancelAt = int64(rng.Dur(0, 10*time.Second)) + 777
 	}
+	avoidCoin(p)
 	return p
 }
 
@@ -484,13 +519,22 @@ func c10Oracle(p *SPlan, ev []verifsim.Event, res *verifsim.Result) {
 	var causeT int64
 	var pendingCause string // cause awaiting its consequence
 	firstDial := true
+	lastDialEnterSeq := 0
+	dialsAfterCancel := 0
 	for i := range ev {
 		e := &ev[i]
 		afterCancel := cancelSeq != 0 && e.Seq > cancelSeq
 		switch e.K {
 		case "dial.enter":
+			lastDialEnterSeq = e.Seq
 			if afterCancel {
-				res.Violate("C10.cancel", "dial-after-cancel", "a dial was attempted at %s, after cancellation at %s", ms(e.T), ms(cancelT))
+				// One further attempt is tolerated: when cancellation precedes a
+				// zero first wait, init() may pick the expired timer over the
+				// cancelled context (the statement only asks for a prompt clean return).
+				dialsAfterCancel++
+				if dialsAfterCancel > 1 {
+					res.Violate("C10.cancel", "dial-after-cancel", "%d dials were attempted after cancellation at %s (latest at %s)", dialsAfterCancel, ms(cancelT), ms(e.T))
+				}
 			}
 			if pendingCause != "" {
 				if !recoverable(pendingCause) {
@@ -519,8 +563,13 @@ func c10Oracle(p *SPlan, ev []verifsim.Event, res *verifsim.Result) {
 			}
 			firstDial = false
 		case "task.enter":
+			if afterCancel && lastDialEnterSeq > cancelSeq && dialsAfterCancel > 1 {
+				res.Violate("C10.cancel", "task-after-cancel", "the task was invoked at %s on a connection dialed after cancellation at %s", ms(e.T), ms(cancelT))
+			}
 			if afterCancel {
-				res.Violate("C10.cancel", "task-after-cancel", "the task was invoked at %s, after cancellation at %s", ms(e.T), ms(cancelT))
+				// a dial that was in flight when cancellation came completes; its
+				// connection is handed to the task, which returns at once
+				res.Probe("cancelled_during_dial")
 			}
 		case "task.exit":
 			if e.Err != "nil" && e.Err != "canceled" {
@@ -536,10 +585,10 @@ func c10Oracle(p *SPlan, ev []verifsim.Event, res *verifsim.Result) {
 			cancelled := cancelSeq != 0 && e.Seq > cancelSeq
 			switch {
 			case cancelled:
-				if e.Err != "" && !strings.Contains(e.Err, "clean up") {
+				if e.Err != "" && !strings.Contains(e.Err, "clean up") && !failedAfterCancel(ev, cancelSeq) {
 					res.Violate("C10.cancel", "result", "Dial returned %q after cancellation", e.Err)
 				}
-				if e.T > cancelT {
+				if e.T > cancelT+dialTimeAfterCancel(ev, cancelSeq) {
 					res.Violate("C10.cancel", "late", "Dial returned at %s, %s after cancellation", ms(e.T), time.Duration(e.T-cancelT))
 				}
 			case pendingCause == "nil":
@@ -566,6 +615,45 @@ func c10Oracle(p *SPlan, ev []verifsim.Event, res *verifsim.Result) {
 	if cancelSeq != 0 {
 		res.Probe("cancelled")
 	}
+}
+
+// dialTimeAfterCancel returns how long dial attempts kept the Dialer busy after
+// the cancellation (a dial attempt cannot be interrupted).
+func dialTimeAfterCancel(ev []verifsim.Event, cancelSeq int) int64 {
+	var enterT int64 = -1
+	var cancelT, busy int64
+	for i := range ev {
+		e := &ev[i]
+		switch {
+		case e.Seq == cancelSeq:
+			cancelT = e.T
+		case e.K == "dial.enter":
+			enterT = e.T
+		case e.K == "dial.exit" && enterT >= 0:
+			if e.Seq > cancelSeq {
+				from := enterT
+				if from < cancelT {
+					from = cancelT
+				}
+				busy += e.T - from
+			}
+			enterT = -1
+		}
+	}
+	return busy
+}
+
+// failedAfterCancel reports whether a dial attempt failed after the
+// cancellation: whether Dial then reports that failure or the cancellation is
+// not specified.
+func failedAfterCancel(ev []verifsim.Event, cancelSeq int) bool {
+	for i := range ev {
+		e := &ev[i]
+		if e.Seq > cancelSeq && e.K == "dial.exit" && e.Err != "" {
+			return true
+		}
+	}
+	return false
 }
 
 func c10Backoff(res *verifsim.Result, waits []int64, attempts int) {
